@@ -353,6 +353,19 @@ def run(ctx, only_scripts=None):
                         rp = vlib.save_replay(ctx, key.replace(":", "_").replace("[", "_").replace("]", ""), dict(family="proc", property="C12", clause=key, observed=tev[line - 1]))
                         violations.append(dict(key=key, replay=rp, what=json.dumps(tev[line - 1])[:300]))
         stats["throttled_composition_events"] = tnev
+    if prop in ("C01", "C02", "C03", "C04") and only_scripts is None:
+        # the recordings of runMain while a test recording is made on top (the three sinks as handleConn wires them):
+        # the motion files must be exactly the predicted ones
+        import fam_e2e
+        binp = ctx.go_test_build("./cmd/thermal-recorder", "tr.test")
+        oruns = fam_e2e.c17_runs(ctx, binp)
+        for v in fam_e2e.judge_c11(ctx, oruns, binp):
+            if "motion-files-differ" in v["key"] or "daemon-crashed" in v["key"]:
+                key = "%s:end-to-end-with-test-recording[%s]" % (prop, "daemon-crashed" if "crashed" in v["key"] else "motion-files-differ")
+                if key not in seen:
+                    seen.add(key)
+                    violations.append(dict(v, key=key))
+        stats["e2e_runs_with_overlapping_test_recordings"] = len(oruns)
     if prop == "C04" and only_scripts is None:
         import fam_e2e
         binp = ctx.go_test_build("./cmd/thermal-recorder", "tr.test")
@@ -365,10 +378,35 @@ def run(ctx, only_scripts=None):
                 seen.add(v["key"])
                 violations.append(v)
         stats["e2e_runs_with_configured_window"] = len(wruns)
+        # the disk gate behind a throttle that really throttles (drained bucket, refills during the motion run)
+        import fam_throttle
+        tscripts = [dict(fam_throttle.gen_proc(ctx.rng), origin="proc") for _ in range(80 if tier == "quick" else 1000)]
+        ttrace = fam_throttle.drive(ctx, tscripts, "c04thr")
+        tviol, tnev = fam_throttle.judge(ctx, ttrace, "c04thrmon")
+        tev = vlib.read_ndjson(ttrace)
+        for (line, tags) in tviol:
+            for t in tags:
+                if t.startswith("C04:") and t not in seen:
+                    seen.add(t)
+                    rp = vlib.save_replay(ctx, "C04_through_throttle", dict(family="proc", property="C04", clause=t, observed=tev[line - 1]))
+                    violations.append(dict(key=t, replay=rp, what=json.dumps(tev[line - 1])[:300]))
+        stats["throttled_composition_events"] = tnev
+        stats["throttled_frames_without_disk_space"] = sum(1 for e in tev if e.get("ev") == "pframe" and not e["disk"])
     if prop == "C03" and only_scripts is None:
         cv, cstats = config_lengths(ctx, tier)
         violations += [v for v in cv if v["key"] not in seen]
         stats["config_files_parsed"] = cstats
+        import fam_e2e
+        binp = ctx.go_test_build("./cmd/thermal-recorder", "tr.test")
+        druns = fam_e2e.c03_disconnect_runs(ctx, binp)
+        for v in fam_e2e.judge_c11(ctx, druns, binp):
+            if v["key"].startswith("C11:e2e-"):
+                continue
+            v["key"] = v["key"].replace("C11:settings-do-not-shape-files", "C03:end-to-end-disconnect").replace("C11:", "C03:")
+            if v["key"].startswith("C03:") and v["key"] not in seen:
+                seen.add(v["key"])
+                violations.append(v)
+        stats["e2e_runs_ending_inside_a_recording"] = len(druns)
     raw_stats = {}
     if prop == "C13" and only_scripts is None:
         rv, raw_stats = raw_frames(ctx, tier)
